@@ -26,6 +26,7 @@ ASSUMPTIONS = [
     "values are small integers stored as float64 so batching cannot hide behind a tolerance; mean/std/divide/power compare with rtol 1e-9",
     "the dimension order after broadcast is xarray's (only the set of dims is compared there); scalar (non-dimension) coordinates are ignored",
     "graphs are evaluated by a reference interpreter (substitution), not lowered or scheduled: that is C10/C01",
+    "programs over xarray internals end as soon as a value is NaN: xarray reductions skip NaN by default (known finding F32 of C15)",
 ]
 TIERS = {
     "quick": {"cases": 1600, "shards": 16},
@@ -102,6 +103,11 @@ def run_case(prog) -> tuple[bool, list[str]]:
             raise Violation(f"step {i} {op} raised {type(e).__name__}: {e}", "op-raises")
         classes.update(tags)
         m = compare(a, m, i, op, "order_unspecified" not in tags)
+        if prog["src"]["xr"] and np.isnan(m.M).any():
+            # xarray reductions skip NaN by default (recorded as known finding F32 under C15): once a NaN exists the NumPy model is
+            # no longer the reference for xarray internals -- the program ends here
+            classes.add("nan_in_xarray_program_stopped")
+            break
         if "batched" in tags:
             nt_a = True
         if "new_dim_not_last" in tags:
